@@ -408,7 +408,7 @@ func runBlocks(c BlocksCase, o *vh.Obs) *vh.Failure {
 	case "long-capsule":
 		fields = []marching.Field{marching.Line(vector3.New(5., 100, 100), vector3.New(5+float64(c.L), 100.3, 99.8), 3, 1)}
 	case "whole-block":
-		fields = []marching.Field{marching.Sphere(vector3.New(30., 40, 50), 6, 1), marching.Box(vector3.New(50., 50, 50), vector3.New(99., 99, 99), 1)}
+		fields = []marching.Field{marching.Sphere(vector3.New(30., 40, 96.5), 6, 1), marching.Box(vector3.New(50., 50, 50), vector3.New(99., 99, 99), 1)}
 	default:
 		return nil
 	}
